@@ -131,6 +131,25 @@ theorem timeout_returns (s : State) (k : Nat) (hw : s.pc k = .waiting) :
   · intro s1 r h1
     simp [step, h1]
 
+/-- The deadline of a call is the EARLIER of the client timeout and the caller's own deadline (or cancellation): it is
+never later than `start + timeout`, never later than the caller's deadline, it is one of the two, and without a caller
+deadline it is `start + timeout`. Together with `timeout_returns` (the timeout arm is enabled in every waiting state)
+an unanswered call returns `timeout` exactly then. -/
+theorem timeout_is_min (start timeout : Nat) (caller : Option Nat) :
+    effectiveDeadline start timeout caller ≤ start + timeout ∧
+    (∀ d, caller = some d → effectiveDeadline start timeout caller ≤ d) ∧
+    (effectiveDeadline start timeout caller = start + timeout ∨ caller = some (effectiveDeadline start timeout caller)) ∧
+    (caller = none → effectiveDeadline start timeout caller = start + timeout) := by
+  cases caller with
+  | none => simp [effectiveDeadline]
+  | some d =>
+    simp only [effectiveDeadline]
+    refine ⟨Nat.min_le_left _ _, ?_, ?_, by simp⟩
+    · intro d' h; cases h; exact Nat.min_le_right _ _
+    · rcases Nat.le_total (start + timeout) d with h | h
+      · exact Or.inl (Nat.min_eq_left h)
+      · exact Or.inr (by rw [Nat.min_eq_right h])
+
 /-! ## no leak -/
 
 /-- `queries` never holds more entries than there are calls that have not returned yet: any list of distinct
